@@ -102,8 +102,11 @@ def main():
         else:
             specs.append(args[i]); i += 1
     os.makedirs(BASE, exist_ok=True)
+    from concurrent.futures import as_completed
     with ThreadPoolExecutor(max_workers=jobs) as ex:
-        for sid, out in ex.map(lambda s: job(s, tier), specs):
+        futures = [ex.submit(job, s, tier) for s in specs]
+        for fut in as_completed(futures):
+            sid, out = fut.result()
             if "error" in out:
                 print(sid, "ERROR", out["error"], flush=True)
                 continue
